@@ -284,6 +284,24 @@ class Skip(Exception):
     pass
 
 
+
+def _builtin_rejects(res, exc, fn, ref, proxy, what):
+    """The builtin answered the call with IndexError / KeyError / ValueError (no such position, key or member) although every
+    item handed over is acceptable.  A container that behaves like the builtin cannot carry the call out instead: the typed one
+    must raise as well and hold what it held.  (Which exception class it raises is not judged.)"""
+    if not isinstance(exc, (IndexError, KeyError, ValueError)):
+        raise Skip()
+    res.count("calls_the_builtin_rejects_given_to_the_typed_container")
+    try:
+        fn()
+    except Exception:
+        d = _cmp(ref, proxy)
+        if d:
+            return "viol", "%s: the builtin raises %s and keeps its contents, the typed container raised and changed: %s" % (what, type(exc).__name__, d)
+        raise Skip()
+    return "viol", "%s: the builtin raises %r, the typed container carried the call out: %s" % (what, exc, _cmp(ref, proxy) or "contents unchanged")
+
+
 def _norm_item(f, x):
     if f is None:
         return True, x
@@ -721,14 +739,20 @@ def _list_op(cc, cfg, f, proxy, ref, op, res):
             else:
                 trial[op["i"]] = n
                 want = None
-        except Exception:
-            raise Skip()
+        except Exception as exc:
+            rejected = exc
+        else:
+            rejected = None
         pos = op.get("i")
         if pos is not None and op.get("index_object"):
             pos = _Index(pos)  # an object with __index__ (numpy integers, enum members ...) is a position like any int
             res.count("positions_given_as_index_objects")
         fn = {"append": lambda: proxy.append(x), "insert": lambda: proxy.insert(pos, x),
               "setitem": lambda: proxy.__setitem__(pos, x)}[name]
+        if rejected is not None:
+            if not ok:
+                raise Skip()
+            return _builtin_rejects(res, rejected, fn, ref, proxy, "%s at position %r of %d items" % (name, op.get("i"), len(ref)))
         if not ok:
             return ("invalid-raised", None) if _expect_raise(fn) else ("viol", "invalid item %r was accepted" % (op["x"],))
         try:
@@ -866,7 +890,12 @@ def _list_op(cc, cfg, f, proxy, ref, op, res):
             want = trial.clear()
         else:
             return None
-    except Exception:
+    except Exception as exc:
+        if name in ("pop", "delitem"):
+            return _builtin_rejects(res, exc, (lambda: proxy.pop(op["i"])) if name == "pop" else (lambda: proxy.__delitem__(op["i"])),
+                                    ref, proxy, "%s at position %r of %d items" % (name, op["i"], len(ref)))
+        if name == "remove" and not _has_nan([n]) and not _has_nan(ref):
+            return _builtin_rejects(res, exc, lambda: proxy.remove(n), ref, proxy, "remove of a value that is no member")
         raise Skip()
     try:
         if name == "pop":
@@ -1174,8 +1203,11 @@ def _dict_op(cc, cfg, f, proxy, ref, op, res):
             want = trial.clear()
         else:
             return None
-    except Exception:
-        raise Skip()
+    except Exception as exc:
+        call = {"pop": lambda: proxy.pop(nk), "popitem": lambda: proxy.popitem(), "delitem": lambda: proxy.__delitem__(nk)}.get(name)
+        if call is None:
+            raise Skip()
+        return _builtin_rejects(res, exc, call, ref, proxy, "%s of a key that is not there (%d entries)" % (name, len(ref)))
     try:
         if name == "pop":
             got = proxy.pop(nk, "dflt") if op.get("has_v") else proxy.pop(nk)
